@@ -130,6 +130,23 @@ def c03_scenarios(tier, mc, rng):
         s = key_scn("i%d" % k, keys, 0, "plain", [x for x in (9, -9, 4242) if x not in keys and (typ == "sint" or x >= 0)],
                     "random", keytype=typ)
         scns.append(s)
+    # integer keys stored on w bytes, looked up with probes that differ from a written key only above those w bytes
+    # (k + 2^(8w), k + 2^32, ...): the comparison must be made on the whole 64-bit value, in both search modes
+    k = 0
+    for w in range(1, 8):
+        top = (1 << (8 * w)) - 1
+        for typ in ("uint", "sint"):
+            if typ == "uint":
+                keys = sorted({7, top // 3, top - 1, top} if w > 1 else {7, 200, 255})
+                probes = [x + (1 << (8 * w)) for x in keys] + [x + (1 << 32) for x in keys[:2] if w < 4] + [x + (1 << (8 * (w + 1))) for x in keys[:2] if w < 7]
+            else:
+                half = 1 << (8 * w - 1)
+                keys = sorted({-half, -3, 5, half - 1})
+                probes = [x + (1 << (8 * w)) for x in keys[:3]] + [x - (1 << (8 * w)) for x in keys[1:]]
+                probes = [x for x in probes if -(1 << 63) <= x < (1 << 63)]
+            probes = [x for x in probes if x not in keys]
+            k += 1
+            scns.append(key_scn("al%d" % k, keys, 0, "plain", probes, "directed:aliased-probes", window=(1, len(keys) - 1), keytype=typ))
     # multi-key sort: (uint group, array name)
     for k in range(6 if tier == "quick" else 60):
         n = rng.choice([3, 20, 200])
@@ -179,11 +196,12 @@ def c15_scenarios(tier, mc, rng):
             else:
                 t = rng.randrange(n)
             entries.append({"variant": "A" if i % 2 else "B",
-                            "values": dict({"k": {"a": list(b"%07d" % keys[i])}, "lnk": {"r": t}},
+                            "values": dict({"k": {"a": list(b"%07d" % keys[i])}, "lnk": {"r": t}, "sl": {"rs": t}},
                                            **({"back": {"r": (i * 7) % n}} if i % 2 else {}))})
-        scns.append({"kind": "entries", "id": "g%d" % k, "stores": [rng.choice(["plain", "indexed"])],
+        # (an indexed store records one offset per value in a tail whose size is a 16-bit field: about 21 800 values at most, F4)
+        scns.append({"kind": "entries", "id": "g%d" % k, "stores": [rng.choice(["plain", "indexed"]) if n <= 20000 else "plain"],
                      "schema": {"common": [{"name": "k", "type": "array", "prefix": rng.choice([0, 2, 7]), "store": 0},
-                                           {"name": "lnk", "type": "ref"}],
+                                           {"name": "lnk", "type": "ref"}, {"name": "sl", "type": "sref"}],
                                 "variants": [{"name": "A", "props": [{"name": "back", "type": "ref"}]}, {"name": "B", "props": []}],
                                 "sort": ["k"] if srt else None},
                      "entries": entries, "indexes": [{"name": "main", "offset": 0, "count": n}], "origin": "seeded", "expect": "ok",
